@@ -16,8 +16,9 @@ Outcome RunC10(RunCtx& ctx)
 	// swarm: half of the runs restrict the enabled kinds
 	if (s.chance(sim::L_CFG, 1, 2)) g.kindMask = s.draw(sim::L_CFG, 0xFFFFFFFFu) | (1u << static_cast<int>(K::I32));
 	SerializationOptions o = GenLoadOptions(s, sim::L_CFG, archive);
-	const bool avoidEmpty = archive == A_XML && !s.chance(sim::L_CFG, 1, 64);   // KF: XML empty containers (see known_findings)
-	g.allowEmptyContainers = !avoidEmpty;
+	// regions of the findings owned by C01 are not entered here (they would only re-report the same defects)
+	if (archive == A_XML || archive == A_CSV) g.allowEmptyContainers = false;   // KF-XML-EMPTY-CONTAINER, KF-CSV-EMPTY-TABLE
+	if (archive == A_JSON) g.simpleFloats = true;                               // KF-JSON-DOUBLE-PRECISION
 
 	DynNode doc = GenDocument(s, sim::L_DOC, g);
 
